@@ -47,6 +47,10 @@ def real(v, scale):
 def warn_value(v, flavour):
     """Produce a non-finite value through an operation that raises a NumPy RuntimeWarning."""
     one, zero = np.float64(1.0), np.float64(0.0)
+    if flavour == 2:
+        # a helper of the equation that reports the trouble itself, through the warnings machinery, and returns the value
+        warnings.warn('scripted helper: result is not finite', UserWarning)
+        return real(v, 1.0)
     if v == NAN:
         return zero / zero if flavour == 0 else np.float64(np.inf) - np.float64(np.inf)
     if v == PINF:
@@ -103,6 +107,8 @@ def model_class(nv, tracer=False, lags=0, leads=0):
                 return        # the warm-up solve of an object with a history: a pass that changes nothing
             d['_v_nP'] += 1
             k = d['_v_nP']
+            if d.get('_v_wnan'):
+                d['_W'][t] = np.nan       # a non-check endogenous variable turns non-finite, silently: no concern of the solver's
             d['_v_iters'].append(kwargs.get('iteration'))
             outs = d['_v_script'][k - 1] if k <= len(d['_v_script']) else None
             if outs is None:
@@ -208,6 +214,7 @@ def build(rec, variant, tracer=False):
     d['_v_nB'] = d['_v_nA'] = d['_v_nP'] = 0
     d['_v_iters'] = []
     d['_v_kw_before'] = None
+    d['_v_wnan'] = bool(variant.get('wnan'))
     return m, tpos, span
 
 
@@ -291,6 +298,8 @@ def run_one(rec, variant):
     feasible = tpos - cfg.get('lags', 0) >= 0 and tpos + cfg.get('leads', 0) < L
     applied = cfg['offset'] != 0 and cfg['min'] <= cfg['max'] and feasible and 0 <= src < L and len(cfg['c0']) > 0
     exp_w = before['W'][src] if applied else before['W'][tpos]
+    if variant.get('wnan') and obs['nP'] > 0:
+        exp_w = float('nan')
     if not same(after['W'][tpos], exp_w):
         diffs.append('noncheck_endogenous')
     # iteration keyword handed to the passes: 1, 2, ...
